@@ -271,6 +271,19 @@ func c07Invariants(h *sam.Header) string {
 		}
 		seen[x.Name()] = true
 	}
+	// the header finds each of its references by name (a record line naming
+	// it parses to that very reference), and nothing under a name it does
+	// not list
+	for _, x := range h.Refs() {
+		var rec sam.Record
+		line := []byte("q\t0\t" + x.Name() + "\t1\t0\t*\t*\t0\t0\t*\t*")
+		if err := rec.UnmarshalSAM(h, line); err != nil {
+			return fmt.Sprintf("a record on reference %q does not parse against the header: %v", x.Name(), err)
+		}
+		if rec.Ref != x {
+			return fmt.Sprintf("a record on reference %q parses to another reference (%q, id %d)", x.Name(), rec.Ref.Name(), rec.Ref.ID())
+		}
+	}
 	seen = map[string]bool{}
 	for i, x := range h.RGs() {
 		if x.ID() != i {
@@ -302,6 +315,7 @@ func c07History(r *core.Result, rng *rand.Rand) bool {
 	// stale: references that used to be in a header and were removed or
 	// replaced; callers may still hold them and use them.
 	var stale []*sam.Reference
+	var removedRGs []*sam.ReadGroup
 	// merges: the links MergeHeaders returned, with a snapshot taken then;
 	// later edits of any header must not change what the caller was given.
 	type mergeRec struct {
@@ -347,7 +361,57 @@ func c07History(r *core.Result, rng *rand.Rand) bool {
 		var opname string
 		before := refsOf()
 		pv, st := core.Recover(func() {
-			switch x := rng.Intn(16); x {
+			switch x := rng.Intn(18); x {
+			case 16: // ReadGroup.SetName: refused iff another group of the header has the name
+				if gs := h.RGs(); len(gs) > 0 {
+					g := gs[rng.Intn(len(gs))]
+					n := fmt.Sprintf("rg%d", rng.Intn(4))
+					taken := false
+					for _, o := range gs {
+						if o != g && o.Name() == n {
+							taken = true
+						}
+					}
+					old := g.Name()
+					opname = fmt.Sprintf("ReadGroup.SetName(%s->%s)", old, n)
+					err := g.SetName(n)
+					switch {
+					case taken && err == nil && g.Name() == n:
+						r.Violate("model|rg-setname|duplicate-accepted", "%s accepted although another read group has that name\nhistory: %v", opname, append(hist, opname))
+					case taken && err == nil:
+						r.Violate("model|rg-setname|silently-ignored", "%s returned nil but the name is still %q (another read group has the new name: an error is due)\nhistory: %v", opname, g.Name(), append(hist, opname))
+					case !taken && err != nil:
+						r.Violate("model|rg-setname|refused", "%s: %v, but no other read group of the header has that name\nhistory: %v", opname, err, append(hist, opname))
+					case !taken && g.Name() != n:
+						r.Violate("model|rg-setname|not-applied", "%s returned nil but the name is %q\nhistory: %v", opname, g.Name(), append(hist, opname))
+					}
+					interesting = true
+				}
+			case 17: // Program.SetUID, same rule
+				if ps := h.Progs(); len(ps) > 0 {
+					g := ps[rng.Intn(len(ps))]
+					n := fmt.Sprintf("pg%d", rng.Intn(4))
+					taken := false
+					for _, o := range ps {
+						if o != g && o.UID() == n {
+							taken = true
+						}
+					}
+					old := g.UID()
+					opname = fmt.Sprintf("Program.SetUID(%s->%s)", old, n)
+					err := g.SetUID(n)
+					switch {
+					case taken && err == nil && g.UID() == n:
+						r.Violate("model|pg-setuid|duplicate-accepted", "%s accepted although another program has that uid\nhistory: %v", opname, append(hist, opname))
+					case taken && err == nil:
+						r.Violate("model|pg-setuid|silently-ignored", "%s returned nil but the uid is still %q (another program has the new uid: an error is due)\nhistory: %v", opname, g.UID(), append(hist, opname))
+					case !taken && err != nil:
+						r.Violate("model|pg-setuid|refused", "%s: %v, but no other program of the header has that uid\nhistory: %v", opname, err, append(hist, opname))
+					case !taken && g.UID() != n:
+						r.Violate("model|pg-setuid|not-applied", "%s returned nil but the uid is %q\nhistory: %v", opname, g.UID(), append(hist, opname))
+					}
+					interesting = true
+				}
 			case 0, 1: // AddReference: new / clone / same name other tags / foreign
 				name := names[rng.Intn(len(names))]
 				switch rng.Intn(4) {
@@ -393,19 +457,44 @@ func c07History(r *core.Result, rng *rand.Rand) bool {
 					if rng.Intn(3) == 0 {
 						n = x.Name()
 					}
-					opname = fmt.Sprintf("SetName(%s->%s)", x.Name(), n)
-					x.SetName(n)
+					if rng.Intn(3) == 0 {
+						// the same rename through the tag interface
+						opname = fmt.Sprintf("Set(SN %s->%s)", x.Name(), n)
+						x.Set(sam.NewTag("SN"), n)
+					} else {
+						opname = fmt.Sprintf("SetName(%s->%s)", x.Name(), n)
+						x.SetName(n)
+					}
 				}
 			case 4:
 				n := fmt.Sprintf("rg%d", rng.Intn(4))
 				opname = "AddReadGroup(" + n + ")"
-				h.AddReadGroup(c07RG(rng, n))
+				if len(removedRGs) > 0 && rng.Intn(3) == 0 {
+					// a group removed earlier is, by RemoveReadGroup's
+					// documentation, available to add to another header
+					g := removedRGs[len(removedRGs)-1]
+					removedRGs = removedRGs[:len(removedRGs)-1]
+					taken := false
+					for _, o := range h.RGs() {
+						if o.Name() == g.Name() {
+							taken = true
+						}
+					}
+					opname = "AddReadGroup(removed " + g.Name() + ")"
+					if err := h.AddReadGroup(g); (err == nil) == taken {
+						r.Violate("model|add-removed-readgroup", "%s: err=%v, a group of that name present=%v\nhistory: %v", opname, err, taken, append(hist, opname))
+					}
+				} else {
+					h.AddReadGroup(c07RG(rng, n))
+				}
 			case 5:
 				o := live[rng.Intn(len(live))]
 				if len(o.RGs()) > 0 {
 					x := o.RGs()[rng.Intn(len(o.RGs()))]
 					opname = fmt.Sprintf("RemoveReadGroup(%s own=%v)", x.Name(), o == h)
-					h.RemoveReadGroup(x)
+					if h.RemoveReadGroup(x) == nil {
+						removedRGs = append(removedRGs, x)
+					}
 					interesting = true
 				}
 			case 6:
